@@ -363,3 +363,16 @@ func Try(f func()) (panicked bool, msg string, isFault bool, addr uintptr) {
 	f()
 	return
 }
+
+// Perm returns a pseudo-random permutation of 0..n-1 (Fisher-Yates).
+func (r *RNG) Perm(n int) []int {
+	p := make([]int, n)
+	for i := range p {
+		p[i] = i
+	}
+	for i := n - 1; i > 0; i-- {
+		j := r.Intn(i + 1)
+		p[i], p[j] = p[j], p[i]
+	}
+	return p
+}
